@@ -294,6 +294,8 @@ def enc(d, v):
                 raise RefError(f"missing member {name!r}")
             if v[name]:
                 buf[off] |= 1 << bit
+            else:
+                buf[off] &= ~(1 << bit) & 0xFF  # a BOOL member's value IS its host bit, also over a visible host member
             care[off] |= 1 << bit
         return bytes(buf)
     raise AssertionError(d)
